@@ -319,6 +319,9 @@ func genRandom(rng *rand.Rand, length int) []M {
 				continue
 			}
 			ts := rSubjects[rng.Intn(len(rSubjects))]
+			if rng.Intn(10) < 4 { // a hot subject, so that subscribers share buffers, cached snapshots and resume points
+				ts = rSubjects[0]
+			}
 			from := "fresh"
 			if ever[c] != nil && rng.Intn(2) == 0 {
 				ts, from = *ever[c], "resume"
